@@ -7,7 +7,7 @@
 From Coq Require Import NArith List Bool String.
 From Verif Require Import Livepatch.Heap Livepatch.Patch Livepatch.Xreload
                           Livepatch.PatchProofs Livepatch.XreloadProofs Livepatch.FrameProofs
-                          Livepatch.ShapeProofs Livepatch.TermProofs.
+                          Livepatch.ShapeProofs Livepatch.TermProofs Livepatch.Wf Livepatch.KindProofs Livepatch.TotalProofs.
 Import ListNotations.
 
 (* rollback: the new source raises at any statement index an exception of ANY class exc - the handler is a
@@ -68,7 +68,7 @@ Theorem C16_identity_kept_fields : forall (rec : recT) s stack fo fn n1 m1 c1 d1
   func_compatible (hp s) (OFunc n1 m1 c1 d1 kd1 doc1 an1 fd1 cl1 fv1) (OFunc n2 m2 c2 d2 kd2 doc2 an2 fd2 cl2 fv2) = true ->
   (forall s0 st x y s1 r, rec s0 st x y = Ok s1 r -> lookup (hp s1) fo = lookup (hp s0) fo) ->
   patch_function rec s stack fo fn = Ok s' a ->
-  lookup (hp s') fo = lookup (update (hp s) fo (OFunc n1 m1 c2 d2 kd2 doc2 an2 fd1 cl1 fv1)) fo.
+  lookup (hp s') fo = Some (OFunc n1 m1 c2 d2 kd2 doc2 an2 fd1 cl1 fv1).
 Proof. exact patch_function_fields. Qed.
 Print Assumptions C16_identity_kept_fields.
 
@@ -82,6 +82,57 @@ Theorem C16_identity_kept_literal_refuted :
 Proof. exact identity_kept_literal_refuted. Qed.
 Print Assumptions C16_identity_kept_literal_refuted.
 
+(* identity_kept for methods: a method object always keeps its identity; its function follows the function rule *)
+Theorem C16_identity_kept_method : forall (rec : recT) s stack m1 m2 s' a,
+  patch_method rec s stack m1 m2 = Ok s' a -> a = m1.
+Proof. exact patch_method_kept. Qed.
+Print Assumptions C16_identity_kept_method.
+
+(* identity_kept for classes - the exact condition: a class is replaced only if its __slots__ differ or CPython
+   refuses the __bases__ assignment (oracle bases_ok); otherwise it keeps its address *)
+Theorem C16_identity_kept_class : forall modname bases_ok nm (rec : recT) s stack c_old c_new s' a,
+  patch_class modname bases_ok nm rec s stack c_old c_new = Ok s' a ->
+  a = c_old \/
+  (a = c_new /\ ((exists n1 m1 cd1 b1 sl1 n2 m2 cd2 b2 sl2,
+                    lookup (hp s) c_old = Some (OClass n1 m1 cd1 b1 sl1) /\
+                    lookup (hp s) c_new = Some (OClass n2 m2 cd2 b2 sl2) /\
+                    slots_differ nm (hp s) cd1 cd2 = true)
+                 \/ bases_ok c_old c_new = false)).
+Proof. exact patch_class_identity. Qed.
+Print Assumptions C16_identity_kept_class.
+
+(* ... and gets the right bases (C16-e repaired): with a single base that has a counterpart among the old bases,
+   the class body runs with - and stores as __bases__ - the RESULT of livepatching (old base, new base), i.e. the old
+   base object whenever the base class is itself kept *)
+Theorem C16_class_bases_mapped : forall (rec : recT) stack ob nb s k,
+  same_class_key (class_key (hp s) ob) (class_key (hp s) nb) = true ->
+  map_bases rec stack [ob] [nb] s [] k = bind (rec s stack ob nb) (fun s' u => k s' [u]).
+Proof. exact map_bases_single. Qed.
+Print Assumptions C16_class_bases_mapped.
+
+Theorem C16_class_bases_stored : forall modname bases_ok nm (rec : recT) stack c_old c_new s mapped n1 m1 cd1 b1 sl1 n2 m2 cd2 b2 sl2,
+  lookup (hp s) c_old = Some (OClass n1 m1 cd1 b1 sl1) ->
+  lookup (hp s) c_new = Some (OClass n2 m2 cd2 b2 sl2) ->
+  (listN_eqb b1 mapped = true \/ bases_ok c_old c_new = true) ->
+  exists cd, exists l,
+    patch_class_body modname bases_ok nm rec stack c_old c_new s mapped =
+    fold_left (setattr_class modname rec stack c_old c_new) l
+              (Ok (upd s c_old (OClass n1 m1 cd mapped sl1)) c_old).
+Proof. exact patch_class_body_sets_bases. Qed.
+Print Assumptions C16_class_bases_stored.
+
+(* C16-e: for the code before the repair "a kept class has the kept module classes as bases" is false *)
+Theorem C16_class_bases_v0_refuted :
+  exists h b_old b_new a_old a_new,
+    class_bases h b_old = Some [a_old] /\ class_bases h b_new = Some [a_new] /\ a_old <> a_new /\
+    match patch_class_v0 9%N (fun _ _ => true) c16e_names (lp 9%N 0%N (fun _ _ => true) c16e_names 10)
+                         (mkSt h []) [b_old] b_old b_new with
+    | Ok s r => r = b_old /\ class_bases (hp s) b_old = Some [a_new]
+    | _ => False
+    end.
+Proof. exact c16e_v0_refuted. Qed.
+Print Assumptions C16_class_bases_v0_refuted.
+
 (* frame: whatever livepatch does, a dict that is on the visit stack (i.e. that an enclosing
    _livepatch__dict is working on) is not written by the nested call - cycles through the module dict,
    instance dicts and function dicts are cut *)
@@ -90,6 +141,15 @@ Theorem C16_frame_visit_stack : forall modname newmod_dict bases_ok nm fuel s st
   forall d e, In d stack -> lookup (hp s) d = Some (ODict e) -> lookup (hp s') d = Some (ODict e).
 Proof. exact lp_frame_plain. Qed.
 Print Assumptions C16_frame_visit_stack.
+
+(* the same for every object that only its own handler activation writes - dicts, classes, instances: while one
+   of them is on the visit stack no nested call writes it (functions and cells are excluded: the method and
+   classmethod paths reach _livepatch__function without going through livepatch) *)
+Theorem C16_frame_visit_stack_general : forall modname newmod_dict bases_ok nm fuel s stack old new s' r,
+  lp modname newmod_dict bases_ok nm fuel s stack old new = Ok s' r ->
+  forall d o, In d stack -> lookup (hp s) d = Some o -> protected o = true -> lookup (hp s') d = Some o.
+Proof. exact lp_gframe_plain. Qed.
+Print Assumptions C16_frame_visit_stack_general.
 
 (* dict_shape: a successful patch returns the old module, and its __dict__ object has exactly the keys
    of the new module's dict: deleted names are gone, new names are present (xreload then adds
@@ -137,6 +197,41 @@ Theorem C16_termination_nested : forall modname newmod_dict bases_ok nm fuel s s
 Proof. exact termination_nested. Qed.
 Print Assumptions C16_termination_nested.
 
+(* ---------- patch_total ---------- *)
+(* well-formedness (Wf.wf_heap: unique addresses, every stored address allocated, kinds consistent with the fields)
+   is evaluated by the harness on every snapshot.  Its kind part and the heap domain are invariant under livepatch: *)
+Theorem C16_kinds_preserved : forall modname newmod_dict bases_ok nm fuel h m_old m_new s' r,
+  livepatch_module modname newmod_dict bases_ok nm fuel h m_old m_new = Ok s' r ->
+  forall a, okind (lookup (hp s') a) = okind (lookup h a).
+Proof. exact livepatch_module_kind_preserved. Qed.
+Print Assumptions C16_kinds_preserved.
+
+(* patch_total - "patching a successfully executed new version never raises" - is FALSE, also for the repaired code:
+   on a well-formed heap in which a dict of the new side is also a value of the old side the nested patch empties it
+   and the enclosing loop fails (KeyError).  Reproduced on the real code: known finding C16-f.  Hence failures inside
+   the patch phase exist and leave partial patches: no `rollback_no_partial_patches`. *)
+Theorem C16_patch_total_refuted :
+  exists h m_old m_new modname nm,
+    wf_heap h = true /\
+    exists s, livepatch_module modname (scratch_dict h m_new) (fun _ _ => true) nm (S (List.length h)) h m_old m_new = Raised s.
+Proof. exact patch_total_refuted. Qed.
+Print Assumptions C16_patch_total_refuted.
+
+(* patch_total_partial: the dict loop (module dict, instance dicts, function dicts, dict data) never raises by
+   itself - every key it reads is still there - when the nested calls do not raise and do not write the NEW dict
+   (separation of old and new side; the harness evaluates it for the scratch module's dict on every run) *)
+Theorem C16_patch_total_partial : forall (rec : recT),
+  (forall s st a b s' r, rec s st a b = Ok s' r ->
+     forall d e, In d st -> Some d <> None -> lookup (hp s) d = Some (ODict e) -> lookup (hp s') d = Some (ODict e)) ->
+  forall s stk d1 d2 eo en,
+  In d1 stk ->
+  lookup (hp s) d1 = Some (ODict eo) -> lookup (hp s) d2 = Some (ODict en) -> d1 <> d2 ->
+  (forall s0 a b s1 r1, rec s0 stk a b = Ok s1 r1 -> lookup (hp s1) d2 = lookup (hp s0) d2) ->
+  (forall s0 a b s1, rec s0 stk a b <> Raised s1) ->
+  forall s1, patch_dict rec s stk d1 d2 <> Raised s1.
+Proof. exact patch_dict_total. Qed.
+Print Assumptions C16_patch_total_partial.
+
 (* non-vacuity: a two-function module (f kept and re-coded, g replaced because its cell value differs,
    h deleted, k added) patched by the model *)
 Definition nv_heap : heap :=
@@ -144,10 +239,11 @@ Definition nv_heap : heap :=
     (3, ODict [(20, 10); (21, 11); (22, 12)]);              (* old: f, g, h *)
     (4, ODict [(20, 13); (21, 14); (23, 15)]);              (* new: f, g, k *)
     (10, OFunc 20 (Some 9) 100 101 101 102 102 50 [] []);
-    (11, OFunc 30 (Some 9) 103 101 101 102 102 51 [104] [31]);
+    (11, OFunc 30 (Some 9) 103 101 101 102 102 51 [304] [31]);
     (12, OFunc 22 (Some 9) 105 101 101 102 102 52 [] []);
     (13, OFunc 20 (Some 9) 200 101 101 102 102 53 [] []);
-    (14, OFunc 30 (Some 9) 103 101 101 102 102 54 [204] [31]);
+    (14, OFunc 30 (Some 9) 103 101 101 102 102 54 [404] [31]);
+    (304, OCell 104); (404, OCell 204);
     (15, OFunc 23 (Some 9) 205 101 101 102 102 55 [] []);
     (50, ODict []); (51, ODict []); (52, ODict []); (53, ODict []); (54, ODict []); (55, ODict []);
     (100, OPrim 5 1); (101, OPrim 6 2); (102, OPrim 6 2); (103, OPrim 5 3); (105, OPrim 5 4);
